@@ -373,7 +373,14 @@ func C20(r *core.Run) {
 			cat := filepath.Join(sb, "catalogue")
 			c20WriteCatalogue(cat, c.Rels)
 			before := core.Snapshot(filepath.Join(sb, "bin"))
-			res := core.RunCLI(start, sb, "", []string{"CRS_VERIF_RELEASES=" + cat, "CRS_VERIF_FAULTS=" + c.Faults, "HOME=" + sb, "TMPDIR=" + sb}, "self-update")
+			extraEnv := []string{}
+			switch i % 5 {
+			case 2:
+				extraEnv = []string{"GOARCH=arm64", "GOOS=linux"}
+			case 4:
+				extraEnv = []string{"GOOS=darwin", "GOARCH=arm64", "GOFLAGS=-mod=mod"}
+			}
+			res := core.RunCLI(start, sb, "", append(extraEnv, "CRS_VERIF_RELEASES="+cat, "CRS_VERIF_FAULTS="+c.Faults, "HOME="+sb, "TMPDIR="+sb), "self-update")
 			o.Runs++
 			after, _ := os.ReadFile(exe)
 			reqLog, _ := os.ReadFile(filepath.Join(cat, "requests.log"))
